@@ -4,7 +4,8 @@
 //              kind 0: the given bytes; kind 1: a genuine ClientHello (captured from QSslSocket) truncated to cut
 //              bytes (cut < 0: whole) with bit number flip inverted (flip < 0: none), followed by the given bytes
 //              action: 0 client aborts, 1 client closes gracefully, 2 client waits for the server to hang up (bounded)
-//        |  ( 1 request split )                 the request over a completed handshake, and the same over plain TCP
+//        |  ( 1 request split [pauseMs] )       the request over a completed handshake, and the same over plain TCP (the client
+//              pauses pauseMs between the two parts of the request: long-lived connections)
 //        |  ( 2 request )                       one-shot client (writes the request and closes at once) through a relay that
 //              coalesces everything after the client's first flight into ONE segment: the server reads the end of the
 //              handshake, the request and the close in a single read; the same over plain TCP
@@ -135,7 +136,7 @@ int liveSockets(Server *server)
 
 struct Exchange { int calls; Val log; int status; QByteArray body; bool encrypted; };
 
-Exchange exchange(bool tls, const QByteArray &request, int split)
+Exchange exchange(bool tls, const QByteArray &request, int split, int pauseMs = 15)
 {
     Log log;
     QObject scope;
@@ -157,7 +158,7 @@ Exchange exchange(bool tls, const QByteArray &request, int split)
     }
     if (!tls || enc) {
         int k = qBound(0, split, request.size());
-        client.write(request.left(k)); client.flush(); pumpMs(15);
+        client.write(request.left(k)); client.flush(); pumpMs(pauseMs);      // a long pause: the connection simply lives that long
         client.write(request.mid(k)); client.flush();
         pumpTill([&]() { return client.state() == QAbstractSocket::UnconnectedState; }, 3000);
     }
@@ -294,8 +295,9 @@ static Val run_tls(const Val &c)
     if (mode == 1) {
         QByteArray request = c.at(1).asBytes();
         int split = int(c.at(2).asInt());
-        Exchange a = exchange(true, request, split);
-        Exchange b = exchange(false, request, split);
+        int pause = c.size() > 3 ? int(c.at(3).asInt()) : 15;
+        Exchange a = exchange(true, request, split, pause);
+        Exchange b = exchange(false, request, split, pause);
         auto pack = [](const Exchange &e) { return Val::List({Val::Int(e.calls), e.log, Val::Int(e.status), Val::Bytes(e.body)}); };
         return Val::List({Val::Int(1), Val::Bool(a.encrypted), pack(a), pack(b)});
     }
